@@ -3,6 +3,7 @@ from .. import gen, rm, kat
 from ..rm import q, r, F1, F2, h32
 
 ID = 'C02'
+PERTURB = (8, 80)      # cases re-run in the repeat / parallel perturbation passes (quick, thorough)
 EXES = ['release']
 RULE = ('each case takes P = [a]P1, Q = [b]P2 (a, b from boundary and random scalar classes of Z_r*), each in one of the '
         'representations (z=1, library Jacobian, lambda-rescaled), and compares the 384 bytes returned by pairing(), fast_pairing() '
